@@ -1,0 +1,168 @@
+//go:build verif
+
+package crdt
+
+// Contracts for the LWW-element-set (properties C04, C13, C14; safety also C09).
+// Abstract view of a set: key -> (add, del) with (0,0) for absent keys. The join is the point-wise signed maximum;
+// an entry is ACTIVE exactly when it has been added and its latest add is not older than its latest remove
+// (add != 0 && add >= del, add-biased on ties) - the sentence of C04.
+
+import vs "github.com/emitter-io/emitter/internal/verifspec"
+
+func specBE64(v []byte, i int) int64 {
+	return int64(uint64(v[i])<<56 | uint64(v[i+1])<<48 | uint64(v[i+2])<<40 | uint64(v[i+3])<<32 |
+		uint64(v[i+4])<<24 | uint64(v[i+5])<<16 | uint64(v[i+6])<<8 | uint64(v[i+7]))
+}
+
+func specActive(add, del int64) bool { return add != 0 && add >= del }
+
+func specMax(a, b int64) int64 {
+	if a < b {
+		return b
+	}
+	return a
+}
+
+// what a merge passes on for one time: the incoming time if it was newer, else 0 ("not in the delta")
+func specDeltaT(mine, theirs int64) int64 {
+	if mine < theirs {
+		return theirs
+	}
+	return 0
+}
+
+// ---------------------------------------------------------------------------------------------------------
+// Value: 8 bytes add time, 8 bytes delete time (big-endian), then the payload
+
+func pre_Value(v Value) bool { return len(v) >= 16 }
+
+//@ verify newValue post=post_newValue props=C04
+func post_newValue(res0 Value) bool {
+	return len(res0) == 16 && specBE64(res0, 0) == 0 && specBE64(res0, 8) == 0
+}
+
+//@ verify (Value).AddTime pre=pre_Value post=post_AddTime props=C04,C13
+func post_AddTime(v Value, res0 int64) bool { return res0 == specBE64(v, 0) }
+
+//@ verify (Value).DelTime pre=pre_Value post=post_DelTime props=C04,C13
+func post_DelTime(v Value, res0 int64) bool { return res0 == specBE64(v, 8) }
+
+//@ verify (Value).setAddTime pre=pre_Value post=post_setAddTime props=C04,C13
+func post_setAddTime(v Value, t int64, old_v Value) bool {
+	return specBE64(v, 0) == t && vs.Forall(8, len(v), func(i int) bool { return v[i] == old_v[i] })
+}
+
+//@ verify (Value).setDelTime pre=pre_Value post=post_setDelTime props=C04,C13
+func post_setDelTime(v Value, t int64, old_v Value) bool {
+	return specBE64(v, 8) == t && vs.Forall(0, 8, func(i int) bool { return v[i] == old_v[i] }) &&
+		vs.Forall(16, len(v), func(i int) bool { return v[i] == old_v[i] })
+}
+
+//@ verify (Value).IsAdded pre=pre_Value post=post_IsAdded props=C04,C14
+func post_IsAdded(v Value, res0 bool) bool { return res0 == specActive(specBE64(v, 0), specBE64(v, 8)) }
+
+//@ verify (Value).IsRemoved pre=pre_Value post=post_IsRemoved props=C04
+func post_IsRemoved(v Value, res0 bool) bool { return res0 == (specBE64(v, 0) < specBE64(v, 8)) }
+
+//@ verify (Value).IsZero pre=pre_Value post=post_IsZero props=C04,C13
+func post_IsZero(v Value, res0 bool) bool { return res0 == (specBE64(v, 0) == 0 && specBE64(v, 8) == 0) }
+
+//@ verify (Value).Value pre=pre_Value post=post_Value_Value props=C04
+func post_Value_Value(v Value, res0 []byte) bool { return vs.SameBytes(res0, v[16:]) }
+
+// ---------------------------------------------------------------------------------------------------------
+// join algebra (no code): commutative, associative, idempotent - hence the state after any multiset of updates,
+// in any order, grouping and multiplicity, is the join of that set; and the delta is empty exactly when the
+// incoming entry changes nothing.
+
+//@ lemma lemmaJoinCommutative props=C04
+func lemmaJoinCommutative(a, b int64) bool { return specMax(a, b) == specMax(b, a) }
+
+//@ lemma lemmaJoinAssociative props=C04
+func lemmaJoinAssociative(a, b, c int64) bool { return specMax(specMax(a, b), c) == specMax(a, specMax(b, c)) }
+
+//@ lemma lemmaJoinIdempotent props=C04
+func lemmaJoinIdempotent(a int64) bool { return specMax(a, a) == a }
+
+// receiving a delta or the full entry gives the same state
+//@ lemma lemmaDeltaSuffices pre=pre_lemmaNonNeg props=C04,C13
+func pre_lemmaNonNeg(mine int64) bool { return mine >= 0 }
+func lemmaDeltaSuffices(mine, theirs, third int64) bool {
+	// a third replica (times >= 0) that merges the delta ends where it would end with the full time
+	return third < 0 || specMax(third, specMax(mine, specDeltaT(mine, theirs))) == specMax(third, specMax(mine, theirs))
+}
+
+// the delta is empty exactly when nothing changed locally (so re-gossip stops exactly when replicas agree)
+//@ lemma lemmaDeltaEmptyIffUnchanged pre=pre_lemmaNonNeg props=C13
+func lemmaDeltaEmptyIffUnchanged(mine, theirs int64) bool {
+	return (specDeltaT(mine, theirs) == 0) == (specMax(mine, theirs) == mine)
+}
+
+// ---------------------------------------------------------------------------------------------------------
+// Volatile: Has/Get/Add/Del against the abstract view (unbounded); Merge by a bounded stand-in (below)
+
+func specAdd(m map[string]Value, k string) int64 {
+	if !vs.Has(m, k) {
+		return 0
+	}
+	return specBE64(m[k], 0)
+}
+func specDel(m map[string]Value, k string) int64 {
+	if !vs.Has(m, k) {
+		return 0
+	}
+	return specBE64(m[k], 8)
+}
+
+// representation invariant V: every stored value has its 16-byte header
+func specWF(m map[string]Value) bool {
+	return m != nil && vs.ForallKey(m, func(k string) bool { return !vs.Has(m, k) || len(m[k]) >= 16 })
+}
+
+func pre_Volatile(s *Volatile) bool { return s != nil && s.lock != nil && specWF(s.data) }
+
+//@ verify (*Volatile).Has pre=pre_Volatile post=post_Volatile_Has props=C04,C14
+func post_Volatile_Has(s *Volatile, item string, res0 bool) bool {
+	return res0 == specActive(specAdd(s.data, item), specDel(s.data, item))
+}
+
+// specSep: entries of one map do not share bytes (each Value is its own allocation or sub-slice of one)
+func specSep(m map[string]Value) bool {
+	return vs.ForallKey(m, func(k1 string) bool {
+		return vs.ForallKey(m, func(k2 string) bool {
+			return !vs.Has(m, k1) || !vs.Has(m, k2) || k1 == k2 || vs.Disjoint(m[k1], m[k2])
+		})
+	})
+}
+
+func oldAdd(m map[string]Value, k string) int64 { return vs.Old(func() int64 { return specAdd(m, k) }) }
+func oldDel(m map[string]Value, k string) int64 { return vs.Old(func() int64 { return specDel(m, k) }) }
+
+// every key other than item keeps its (add, del)
+func specOthersKeep(m map[string]Value, item string) bool {
+	return vs.ForallKey(m, func(k string) bool {
+		return k == item || (specAdd(m, k) == oldAdd(m, k) && specDel(m, k) == oldDel(m, k))
+	})
+}
+
+func pre_Volatile_Upd(s *Volatile, value []byte) bool {
+	return s != nil && s.lock != nil && specWF(s.data) && specSep(s.data)
+}
+
+// Add at clock reading `now` is the join with (now, .): a non-newer reading changes nothing (which IS the join).
+// `now` is the value the clock returned: the single recorded call of the Now function variable.
+//@ verify (*Volatile).Add pre=pre_Volatile_Upd post=post_Volatile_Add,post_Volatile_WF props=C04,C14
+func post_Volatile_Add(s *Volatile, item string, value []byte) bool {
+	now := vs.TraceRetInt64(0, 0)
+	return vs.TraceLen() == 1 && specAdd(s.data, item) == specMax(oldAdd(s.data, item), now) &&
+		specDel(s.data, item) == oldDel(s.data, item) && specOthersKeep(s.data, item)
+}
+func post_Volatile_WF(s *Volatile) bool { return specWF(s.data) }
+
+//@ verify (*Volatile).Del pre=pre_Volatile_Del post=post_Volatile_Del,post_Volatile_WF props=C04,C14
+func pre_Volatile_Del(s *Volatile) bool { return s != nil && s.lock != nil && specWF(s.data) && specSep(s.data) }
+func post_Volatile_Del(s *Volatile, item string) bool {
+	now := vs.TraceRetInt64(0, 0)
+	return vs.TraceLen() == 1 && specDel(s.data, item) == specMax(oldDel(s.data, item), now) &&
+		specAdd(s.data, item) == oldAdd(s.data, item) && specOthersKeep(s.data, item)
+}
